@@ -137,3 +137,49 @@ Example trailing_bytes :
   answer_status (serve (toy_request "PATCH" "/things/2" ok_accept (BJson doc (b "}")))) = Some 400%Z /\
   answer_status (serve (toy_request "PATCH" "/things/2" ok_accept (BJson doc (b " ")))) = Some 200%Z.
 Proof. vm_compute. auto. Qed.
+
+(** ** the heap model: one Links map at location 0, handed out for every resource.  The code as it
+    is leaves it empty and gives every resource its own links; the in-place variant does neither
+    (C19_in_place_*_refuted are these computations) *)
+From ApiFu Require Import JsonApi.JsonApiHeap JsonApi.JsonApiHeapProofs JsonApi.JsonApiBytes.
+Example heap_history :
+  let '(answers, h) := serve_history_st false leaky_pmt leaky_choose leaky_schema [get_thing "1"; get_thing "2"] leaky_heap in
+  h = leaky_heap /\
+  map owner_of answers =
+  [ Some {| rel_links := [(s_related, b "/things/1/owner"); (s_self, b "/things/1/relationships/owner")]; rel_data := None; rel_meta := [] |};
+    Some {| rel_links := [(s_related, b "/things/2/owner"); (s_self, b "/things/2/relationships/owner")]; rel_data := None; rel_meta := [] |} ].
+Proof. vm_compute. auto. Qed.
+Example heap_history_in_place :
+  let '(answers, h) := serve_history_st true leaky_pmt leaky_choose leaky_schema [get_thing "1"; get_thing "2"] leaky_heap in
+  h = [CLinks [(s_self, b "/things/1/relationships/owner"); (s_related, b "/things/1/owner")]] /\
+  map owner_of answers =
+  [ Some {| rel_links := [(s_self, b "/things/1/relationships/owner"); (s_related, b "/things/1/owner")]; rel_data := None; rel_meta := [] |};
+    Some {| rel_links := [(s_self, b "/things/1/relationships/owner"); (s_related, b "/things/1/owner")]; rel_data := None; rel_meta := [] |} ].
+Proof. vm_compute. auto. Qed.
+
+(** ** request documents as bytes: what the reader and the decoders make of repeated members *)
+Definition no_range (_ : bytes) : bool := false.
+Example raw_merge :
+  decode_body (dec_resource_request true)
+    (body_of_text no_range (b "{""data"":{""type"":""x"",""id"":""1""}, ""DATA"":{""type"":""things"",""type"":null,""attributes"":{""a"":1,""a"":2}}}")) =
+  Some {| pd_type := []; pd_id := b "1"; pd_attrs := [b "a"]; pd_rels := [] |}.
+Proof. vm_compute. reflexivity. Qed.
+Example raw_slice_reuse :
+  decode_body dec_members
+    (body_of_text no_range (b "{""data"":[{""type"":""a"",""id"":""b""},{""type"":""c"",""id"":""d""}],""data"":[{""type"":""e""}]}")) =
+  Some [{| r_type := b "e"; r_id := b "b" |}].
+Proof. vm_compute. reflexivity. Qed.
+Example raw_not_one_value :
+  body_of_text no_range (b "{""data"":null}}") = BNone /\ body_of_text no_range (b "") = BNone /\
+  body_of_text no_range (b "{""data"":null,""x"":1e999}") = BNone /\
+  body_of_text no_range (b " {""data"":null,""x"":-99999} ") = BJson (JObj [(s_data, JNull); (b "x", JNum)]) [].
+Proof. vm_compute. auto. Qed.
+(** an error object whose Meta does not marshal: the 500 of the fallback *)
+Example error_meta_fallback :
+  serve_http fixed toy_pmt toy_choose
+    [ {| rt_name := b "t"; rt_attrs := []; rt_rels := [];
+         rt_get := Some (fun _ => HErr {| e_status := b "403"; e_meta_ok := false |});
+         rt_patch := None; rt_create := None; rt_delete := None |} ]
+    (toy_request "GET" "/t/1" ok_accept BNone) =
+  Resp 500 media_type (WDoc (Some version_1_1) WAbsent [b "500"] []) None.
+Proof. vm_compute. reflexivity. Qed.
